@@ -65,15 +65,31 @@ Section Inv.
     | MTx => forallb (valid m) (need (no_listen x) StTx) = true
     | MRx _ => forallb (valid m) (need (no_listen x) StRx) = true
     | MCad => valid_all m (it_cad x K KO)
-    | _ => True
+    | MSleep => True
+    | _ => lora_sel x m        (* awake as far as the driver knows: the LoRa modem has been selected *)
     end.
   Definition Inv (d : drv) (m : mon) : Prop :=
     okm m /\ agree (dmode d) (cm m) /\ (cold d = false -> valid_all m it_base) /\ prepared (dmode d) m /\
     (x_fam x = K127 -> cm m <> CDuty).
 
+  Lemma lora_sel_le m m' : le_valid m m' -> lora_sel x m -> lora_sel x m'.
+  Proof. intros L H F E. apply L, H; assumption. Qed.
   Lemma prepared_le dm m m' : le_valid m m' -> prepared dm m -> prepared dm m'.
   Proof.
-    intros L. destruct dm; cbn [prepared]; try (intros; exact I); try (apply forallb_le; exact L). apply valid_all_le; exact L.
+    intros L. destruct dm; cbn [prepared]; try (intros; exact I); try (apply forallb_le; exact L); try (apply lora_sel_le; exact L). apply valid_all_le; exact L.
+  Qed.
+  Lemma need_lora k m : forallb (valid m) (need (no_listen x) k) = true -> lora_sel x m.
+  Proof.
+    intros V F E. rewrite forallb_forall in V. apply V. unfold need, no_listen. cbn [x_fam x_lora x_tcxo x_listen x_dcdc]. rewrite F, E.
+    apply in_or_app. left. apply in_or_app. right. left. reflexivity.
+  Qed.
+  (* whenever the driver does not believe the chip asleep, the LoRa modem is selected *)
+  Lemma prepared_lora dm m : dm <> MSleep -> prepared dm m -> lora_sel x m.
+  Proof.
+    intros D P. destruct dm; cbn [prepared] in P; try exact P; try contradiction.
+    - exact (need_lora _ _ P).
+    - exact (need_lora _ _ P).
+    - exact (cad_lora x K KO m P).
   Qed.
   Lemma time_passes_same m : cm (time_passes m) = cm m /\ valid (time_passes m) = valid m /\
                               bad_asleep (time_passes m) = bad_asleep m /\ bad_start (time_passes m) = bad_start m.
@@ -147,9 +163,17 @@ Section Inv.
     - split; [intros Hc; eapply valid_all_le; [exact L|apply C, Hc]|]. split; [eapply prepared_le; [exact L|exact P]|].
       intros F. destruct M as [->|[->|[_ ->]]]; [apply N, F|discriminate|discriminate].
   Qed.
-  Lemma Inv_standby d m : okm m -> cm m = CStby -> (cold d = false -> valid_all m it_base) -> dmode d = MStandby -> Inv d m.
+  Lemma Inv_standby d m : okm m -> cm m = CStby -> (cold d = false -> valid_all m it_base) -> dmode d = MStandby -> lora_sel x m -> Inv d m.
   Proof.
-    intros O E C D. split; [exact O|]. split; [rewrite E; exact I|]. split; [exact C|]. split; [rewrite D; exact I|]. intros _. rewrite E. discriminate.
+    intros O E C D LS. split; [exact O|]. split; [rewrite E; exact I|]. split; [exact C|]. split; [rewrite D; exact LS|]. intros _. rewrite E. discriminate.
+  Qed.
+  Lemma Inv_lora d m : Inv d m -> dmode d <> MSleep -> lora_sel x m.
+  Proof. intros [_ [_ [_ [P _]]]] D. exact (prepared_lora _ _ D P). Qed.
+  (* the chip sent (back) to sleep while the driver believes it asleep *)
+  Lemma Inv_to_sleep d m m' : Inv d m -> okm m' -> le_valid m m' -> dmode d = MSleep -> cm m' = CSleep -> Inv d m'.
+  Proof.
+    intros [O [A [C [P N]]]] O' L D E. split; [exact O'|]. split; [rewrite E; exact D|].
+    split; [intros Hc; eapply valid_all_le; [exact L|apply C, Hc]|]. split; [rewrite D; exact I|]. intros _. rewrite E. discriminate.
   Qed.
 
   Lemma wp_get_sync A (f : N -> prog A) (Q : A + rerr -> drv -> mon -> Prop) d m :
@@ -157,21 +181,22 @@ Section Inv.
   Proof. intros H. cbn [bind get_sync act1 wp]. exact H. Qed.
 
   (* ---- do_cold_start: from standby; the cold_start flag is cleared only when everything went through *)
-  Lemma cold_start_wp (Q : unit + rerr -> drv -> mon -> Prop) d m : okm m -> cm m = CStby -> dmode d = MStandby ->
-    (forall d' m', okm m' -> cm m' = CStby -> valid_all m' it_base -> dmode d' = MStandby -> cold d' = false -> Q (inl tt) d' m') ->
-    (forall e m', okm m' -> cm m' = CStby -> plain_err e -> Q (inr e) d m') ->
+  Lemma cold_start_wp (Q : unit + rerr -> drv -> mon -> Prop) d m : okm m -> cm m = CStby -> dmode d = MStandby -> lora_sel x m ->
+    (forall d' m', okm m' -> cm m' = CStby -> valid_all m' it_base -> dmode d' = MStandby -> cold d' = false -> lora_sel x m' -> Q (inl tt) d' m') ->
+    (forall e m', okm m' -> cm m' = CStby -> plain_err e -> lora_sel x m' -> Q (inr e) d m') ->
     wp x (do_cold_start K) Q d m.
   Proof.
-    intros O E D Hs Hf. unfold do_cold_start. apply wp_get_sync. apply wp_bind.
-    apply (ok_init x K KO); [exact O|apply ready_stby, E|]. intros r m1 E1 _ O1 V1 X1. destruct r as [[]|e]; [|apply Hf; [exact O1|congruence|apply X1; reflexivity]].
+    intros O E D LS Hs Hf. unfold do_cold_start. apply wp_get_sync. apply wp_bind.
+    apply (ok_init x K KO); [exact O|apply ready_stby, E|]. intros r m1 E1 _ O1 V1 X1 LS1. specialize (LS1 LS).
+    destruct r as [[]|e]; [|apply Hf; [exact O1|congruence|apply X1; reflexivity|exact LS1]].
     specialize (V1 I). assert (C1 : cm m1 = CStby) by congruence.
     apply seq_plain with (want := it_power x K KO) (E := plain_err); [apply (ok_power x K KO)|exact O1|apply ready_stby, C1| |].
-    2:{ intros e m2 [L1 [L2 [L3 L4]]] X. apply Hf; [exact L4|congruence|exact X]. }
+    2:{ intros e m2 [L1 [L2 [L3 L4]]] X. apply Hf; [exact L4|congruence|exact X|exact (lora_sel_le _ _ L3 LS1)]. }
     intros [] m2 [L1 [L2 [L3 L4]]] V2. apply wp_get_mode.
     apply seq_plain with (want := it_irq x K KO) (E := pin_only); [apply (ok_irq x K KO)|exact L4|apply ready_stby; congruence| |].
-    2:{ intros e m3 [M1 [M2 [M3 M4]]] X. apply Hf; [exact M4|congruence|]. destruct X as [-> | ->]; repeat split; discriminate. }
+    2:{ intros e m3 [M1 [M2 [M3 M4]]] X. apply Hf; [exact M4|congruence| |exact (lora_sel_le _ _ M3 (lora_sel_le _ _ L3 LS1))]. destruct X as [-> | ->]; repeat split; discriminate. }
     intros [] m3 [M1 [M2 [M3 M4]]] V3. apply wp_set_flag. cbn [set_flag act1 wp].
-    apply Hs; [exact M4|congruence| | |].
+    apply Hs; [exact M4|congruence| | | |exact (lora_sel_le _ _ M3 (lora_sel_le _ _ L3 LS1))].
     - unfold it_base. apply valid_all_app. split; [intros i Hi; apply M3, L3, V1, Hi|]. apply valid_all_app. split; [intros i Hi; apply M3, V2, Hi|exact V3].
     - rewrite !dmode_set_other by (unfold COLD, CAL; discriminate). exact D.
     - unfold cold. rewrite dflag_set_other by (unfold COLD, CAL; discriminate). exact (dflag_set_same d COLD false).
@@ -191,29 +216,34 @@ Section Inv.
   Qed.
 
   Lemma ensure_wp (Q : unit + rerr -> drv -> mon -> Prop) d m : Inv d m ->
-    (forall m', Inv d m' -> le_valid m m' -> (x_fam x = K126 \/ ready m -> ready m') -> Q (inl tt) d m') ->
+    (forall m', Inv d m' -> le_valid m m' -> (x_fam x = K126 \/ (ready m /\ dmode d <> MSleep) -> ready m') -> lora_sel x m' -> Q (inl tt) d m') ->
     (forall e m', Inv d m' -> e = ESpi \/ e = EBusy -> Q (inr e) d m') ->
     wp x (k_ensure_ready K (dmode d)) Q d m.
   Proof.
     intros HI Hs Hf. apply (ok_ensure x K KO); [apply HI|apply agree_sleep_pre, HI|apply agree_duty_pre, HI|].
-    intros r m' O L M R P. assert (HI' : Inv d m').
-    { eapply Inv_move; [exact HI|exact O|exact L|]. destruct M as [M|M]; [left; exact M|right; right; exact M]. }
-    destruct r as [[]|e]; [apply Hs; [exact HI'|exact L|apply R; exact I]|apply Hf; [exact HI'|apply P; reflexivity]].
+    intros r m' O L M R LR P. assert (HI' : Inv d m').
+    { destruct M as [M|[M|[D M]]]; [eapply Inv_move; [exact HI|exact O|exact L|left; exact M]|eapply Inv_move; [exact HI|exact O|exact L|right; right; exact M]|].
+      eapply Inv_to_sleep; [exact HI|exact O|exact L|exact D|exact M]. }
+    destruct r as [[]|e]; [|apply Hf; [exact HI'|apply P; reflexivity]].
+    apply Hs; [exact HI'|exact L|apply R; exact I|].
+    intros F E. destruct (rmode_eqb (dmode d) MSleep) eqn:ES.
+    - apply rmode_eqb_sleep in ES. apply LR; [exact I|exact F|exact ES].
+    - assert (D : dmode d <> MSleep) by (intros X; apply rmode_eqb_sleep in X; congruence). exact (Inv_lora d m' HI' D F E).
   Qed.
 
   (* ---- to_standby *)
-  Lemma to_standby_wp (Q : unit + rerr -> drv -> mon -> Prop) d m : Inv d m -> (x_fam x = K126 -> ready m) ->
+  Lemma to_standby_wp (Q : unit + rerr -> drv -> mon -> Prop) d m : Inv d m -> (x_fam x = K126 -> ready m) -> lora_sel x m ->
     (forall d' m', Inv d' m' -> dmode d' = MStandby -> cm m' = CStby -> le_valid m m' -> (forall t, t <> 0 -> nth t d' [] = nth t d []) -> Q (inl tt) d' m') ->
     (forall e m', Inv d m' -> e = ESpi \/ e = EBusy -> Q (inr e) d m') ->
     wp x (to_standby K) Q d m.
   Proof.
-    intros HI HR Hs Hf. unfold to_standby. apply wp_get_mode. destruct (rmode_eqb (dmode d) MStandby) eqn:EM.
+    intros HI HR LS Hs Hf. unfold to_standby. apply wp_get_mode. destruct (rmode_eqb (dmode d) MStandby) eqn:EM.
     - apply rmode_eqb_standby in EM. cbn [wp]. apply Hs; [exact HI|exact EM| |intros i Hi; exact Hi|intros; reflexivity].
       destruct HI as [_ [A _]]. rewrite EM in A. apply agree_standby_is, A.
     - apply wp_bind. apply (ok_standby x K KO); [apply HI|exact HR|]. intros r m' O L S M P.
       destruct r as [[]|e].
       + cbn [set_mode act1 wp]. specialize (S I). apply Hs; [|apply dmode_set_mode|exact S|exact L|].
-        * apply Inv_standby; [exact O|exact S| |apply dmode_set_mode].
+        * apply Inv_standby; [exact O|exact S| |apply dmode_set_mode|exact (lora_sel_le _ _ L LS)].
           unfold cold. rewrite dflag_set_other by (unfold COLD; discriminate). intros Hc. eapply valid_all_le; [exact L|]. apply HI. exact Hc.
         * intros t Ht. rewrite nth_set_nth_list. destruct (Nat.eqb_spec t 0); [contradiction|reflexivity].
       + apply Hf; [|apply P; reflexivity]. eapply Inv_move; [exact HI|exact O|exact L|]. destruct M as [M|M]; [left; exact M|right; left; exact M].
@@ -228,7 +258,7 @@ Section Inv.
   Proof.
     intros HI Hs Hf. unfold prepare_modem. apply wp_get_mode. apply wp_bind. apply ensure_wp; [exact HI| |].
     2:{ intros e m1 HI1 P. apply Hf; [exact HI1|left; exact P|left; reflexivity]. }
-    intros m1 HI1 L1 R1. apply wp_bind. apply to_standby_wp; [exact HI1| | |].
+    intros m1 HI1 L1 R1 LS1. apply wp_bind. apply to_standby_wp; [exact HI1| |exact LS1| |].
     { intros F. apply R1. left. exact F. }
     2:{ intros e m2 HI2 P. apply Hf; [exact HI2|left; exact P|left; reflexivity]. }
     intros d2 m2 HI2 D2 C2 L2 _. apply wp_get_flag. fold (cold d2).
@@ -249,10 +279,10 @@ Section Inv.
           apply Hf; [exact HI4| |right; exact D3]. right. split; [exact D3|]. split; [destruct L4 as [L4 _]; congruence|exact X].
       - cbn [wp]. apply Hs; assumption. }
     destruct (cold d2) eqn:EC.
-    - apply wp_bind. apply cold_start_wp; [apply HI2|exact C2|exact D2| |].
-      + intros d3 m3 O3 C3 V3 D3 K3. apply TAIL; [|exact D3|exact C3|exact K3]. apply Inv_standby; [exact O3|exact C3|intros _; exact V3|exact D3].
-      + intros e m3 O3 C3 X. apply Hf; [|right; split; [exact D2|split; [exact C3|exact X]]|right; exact D2].
-        apply Inv_standby; [exact O3|exact C3| |exact D2]. intros Hc. rewrite EC in Hc. discriminate Hc.
+    - apply wp_bind. apply cold_start_wp; [apply HI2|exact C2|exact D2|apply (Inv_lora d2 m2 HI2); rewrite D2; discriminate| |].
+      + intros d3 m3 O3 C3 V3 D3 K3 LS3. apply TAIL; [|exact D3|exact C3|exact K3]. apply Inv_standby; [exact O3|exact C3|intros _; exact V3|exact D3|exact LS3].
+      + intros e m3 O3 C3 X LS3. apply Hf; [|right; split; [exact D2|split; [exact C3|exact X]]|right; exact D2].
+        apply Inv_standby; [exact O3|exact C3| |exact D2|exact LS3]. intros Hc. rewrite EC in Hc. discriminate Hc.
     - cbn [bind]. apply TAIL; assumption.
   Qed.
 
@@ -319,8 +349,8 @@ Section Inv.
     apply seq_stby with (E := plain_err) (want := it_mod x K KO); [apply (ok_mod x K KO)|exact HI1|exact D1|exact C1|]. intros [] m2 HI2 C2 L2 V2.
     apply seq_stby with (E := plain_err) (want := it_power x K KO); [apply (ok_power x K KO)|exact HI2|exact D1|exact C2|]. intros [] m3 HI3 C3 L3 V3.
     apply wp_get_mode. apply wp_bind. apply ensure_wp; [exact HI3| |intros e m4 HI4 P; apply post_pin; assumption].
-    intros m4 HI4 L4 _. pose proof (Inv_stby_cm _ _ HI4 D1) as C4.
-    apply wp_bind. apply to_standby_wp; [exact HI4|intros _; apply ready_stby, C4| |intros e m5 HI5 P; apply post_pin; assumption].
+    intros m4 HI4 L4 _ LS4. pose proof (Inv_stby_cm _ _ HI4 D1) as C4.
+    apply wp_bind. apply to_standby_wp; [exact HI4|intros _; apply ready_stby, C4|exact LS4| |intros e m5 HI5 P; apply post_pin; assumption].
     intros d5 m5 HI5 D5 C5 L5 F5.
     destruct (255 <? N.of_nat (length buffer))%N; cbn [bind]; [apply post_stby; assumption|].
     apply seq_stby with (E := plain_err) (want := it_pkt x K KO); [apply (ok_pkt x K KO)|exact HI5|exact D5|exact C5|]. intros [] m6 HI6 C6 L6 V6.
@@ -331,7 +361,7 @@ Section Inv.
     assert (HI9 : Inv (set_nth_list d5 0 (enc_mode MTx)) m8).
     { destruct HI8 as [O8 [A8 [B8 [P8 N8]]]]. split; [exact O8|]. rewrite dmode_set_mode. split; [rewrite C8; exact I|].
       rewrite cold_other by (unfold COLD; discriminate). split; [exact B8|]. split; [|exact N8].
-      cbn [prepared]. apply (cover_tx x K KO). specialize (B8 K5). unfold it_base in B8.
+      cbn [prepared]. apply (cover_tx x K KO); [|rewrite D5 in P8; exact P8]. specialize (B8 K5). unfold it_base in B8.
       apply valid_all_app in B8. destruct B8 as [Bi B8]. apply valid_all_app in B8. destruct B8 as [Bp Bq].
       repeat (apply valid_all_app; split); try assumption.
       - apply (valid_all_le m2); [|exact V2]. intros i Hi. apply L8, L7, L6, L5, L4, L3, Hi.
@@ -346,10 +376,10 @@ Section Inv.
   Lemma recover_wp A err d0 d m : Inv d m -> wp x (recover K (A := A) err) (post d0) d m.
   Proof.
     intros HI. unfold recover. apply wp_get_mode. apply wp_bind. apply ensure_wp; [exact HI| |intros e m1 HI1 P; apply post_pin; assumption].
-    intros m1 HI1 L1 R1. apply wp_bind. apply (ok_standby x K KO); [apply HI1|intros F; apply R1; left; exact F|].
+    intros m1 HI1 L1 R1 LS1. apply wp_bind. apply (ok_standby x K KO); [apply HI1|intros F; apply R1; left; exact F|].
     intros r m2 O2 L2 S2 M2 P2. destruct r as [[]|e].
     - apply wp_set_mode. cbn [wp]. specialize (S2 I). apply post_stby; [|exact S2|apply dmode_set_mode].
-      apply Inv_standby; [exact O2|exact S2| |apply dmode_set_mode]. rewrite cold_other by (unfold COLD; discriminate).
+      apply Inv_standby; [exact O2|exact S2| |apply dmode_set_mode|exact (lora_sel_le _ _ L2 LS1)]. rewrite cold_other by (unfold COLD; discriminate).
       intros Hc. eapply valid_all_le; [exact L2|]. apply HI1. exact Hc.
     - apply post_pin; [|apply P2; reflexivity]. eapply Inv_move; [exact HI1|exact O2|exact L2|]. destruct M2 as [M|M]; [left; exact M|right; left; exact M].
   Qed.
@@ -385,7 +415,7 @@ Section Inv.
         * destruct (Pr eq_refl) as [rm Hrm]. discriminate Hrm.
         * cbn [set_mode act1 wp]. assert (C1 : cm m1 = CStby).
           { destruct AT as [E|E]; [destruct M1 as [M|M]; [congruence|exact M]|]. apply (Dn c eq_refl eq_refl). rewrite E. reflexivity. }
-          apply post_ok. apply Inv_standby; [exact O1|exact C1| |apply dmode_set_mode].
+          apply post_ok. apply Inv_standby; [exact O1|exact C1| |apply dmode_set_mode|apply (Inv_lora d m1 HI1); rewrite D; discriminate].
           rewrite cold_other by (unfold COLD; discriminate). apply HI1.
         * destruct e; try (apply recover_wp; exact HI1); try (apply post_notop; [exact HI1|]); [apply not_op_panic|apply not_op_cancel].
   Qed.
@@ -426,7 +456,7 @@ Section Inv.
     assert (HI5 : Inv (set_nth_list d1 0 (enc_mode (MRx rm))) m4).
     { destruct HI4 as [O4 [A4 [B4 [P4 N4]]]]. split; [exact O4|]. rewrite dmode_set_mode. split; [rewrite C4; exact I|].
       rewrite cold_other by (unfold COLD; discriminate). split; [exact B4|]. split; [|exact N4].
-      cbn [prepared]. apply (cover_rx x K KO). specialize (B4 K1). unfold it_base in B4.
+      cbn [prepared]. apply (cover_rx x K KO); [|rewrite D1 in P4; exact P4]. specialize (B4 K1). unfold it_base in B4.
       apply valid_all_app in B4. destruct B4 as [Bi B4]. apply valid_all_app in B4. destruct B4 as [Bp Bq].
       repeat (apply valid_all_app; split); try assumption.
       - apply (valid_all_le m2); [|exact V2]. intros i Hi. apply L4, L3, Hi.
@@ -475,15 +505,15 @@ Section Inv.
   Proof.
     intros NL HI. unfold start_rx. apply wp_get_mode. destruct (dmode d) eqn:D; try (cbn [wp]; apply post_notop; [exact HI|apply not_op_mode]).
     apply wp_bind. rewrite <- D. apply ensure_wp; [exact HI| |intros e m1 HI1 P; apply post_pin; assumption].
-    intros m1 HI1 L1 R1. apply do_rx_wp; [exact NL|exact HI1|exact D| |reflexivity].
-    apply R1. destruct (x_fam x) eqn:F; [left; reflexivity|right]. apply (ready_127 d); [exact HI|exact F|rewrite D; discriminate].
+    intros m1 HI1 L1 R1 LS1. apply do_rx_wp; [exact NL|exact HI1|exact D| |reflexivity].
+    apply R1. destruct (x_fam x) eqn:F; [left; reflexivity|right]. split; [apply (ready_127 d); [exact HI|exact F|rewrite D; discriminate]|rewrite D; discriminate].
   Qed.
 
   Theorem rx_switch_channel_keeps f d m : x_listen x = false -> Inv d m -> wp x (rx_switch_channel K f) (post d) d m.
   Proof.
     intros NL HI. unfold rx_switch_channel. apply wp_get_mode. destruct (dmode d) eqn:D; try (cbn [wp]; apply post_notop; [exact HI|apply not_op_mode]).
     apply wp_bind. rewrite <- D. apply ensure_wp; [exact HI| |intros e m1 HI1 P; apply post_pin; assumption].
-    intros m1 HI1 L1 R1. apply wp_bind. apply (ok_standby x K KO); [apply HI1|intros F; apply R1; left; exact F|].
+    intros m1 HI1 L1 R1 LS1. apply wp_bind. apply (ok_standby x K KO); [apply HI1|intros F; apply R1; left; exact F|].
     intros r m2 O2 L2 S2 M2 P2.
     assert (HI2 : Inv d m2). { eapply Inv_move; [exact HI1|exact O2|exact L2|]. destruct M2 as [M|M]; [left; exact M|right; left; exact M]. }
     destruct r as [[]|e]; [|apply post_pin; [exact HI2|apply P2; reflexivity]]. specialize (S2 I).
@@ -550,8 +580,8 @@ Section Inv.
     intros NL HI. unfold rx, start_rx. cbn [bind get_mode act1 wp]. fold (dmode d).
     destruct (dmode d) eqn:D; try (cbn [bind wp]; apply post_notop; [exact HI|apply not_op_mode]).
     apply wp_bind. apply wp_bind. rewrite <- D. apply ensure_wp; [exact HI| |intros e m1 HI1 P; apply post_pin; assumption].
-    intros m1 HI1 L1 R1. apply do_rx_wp' with (d0 := d); [exact NL|exact HI1|exact D| |reflexivity| |].
-    - apply R1. destruct (x_fam x) eqn:F; [left; reflexivity|right]. apply (ready_127 d); [exact HI|exact F|rewrite D; discriminate].
+    intros m1 HI1 L1 R1 LS1. apply do_rx_wp' with (d0 := d); [exact NL|exact HI1|exact D| |reflexivity| |].
+    - apply R1. destruct (x_fam x) eqn:F; [left; reflexivity|right]. split; [apply (ready_127 d); [exact HI|exact F|rewrite D; discriminate]|rewrite D; discriminate].
     - intros m2 HI2. apply complete_rx_keeps. exact HI2.
     - intros e m2 H. eapply post_err_cast. exact H.
   Qed.
@@ -561,7 +591,7 @@ Section Inv.
   Proof.
     intros HI. unfold sleep. apply wp_get_mode. destruct (rmode_eqb (dmode d) MSleep) eqn:ES; [cbn [wp]; apply post_ok, HI|].
     apply wp_bind. apply ensure_wp; [exact HI| |intros e m1 HI1 P; apply post_pin; assumption].
-    intros m1 HI1 L1 R1. apply wp_bind. apply (ok_sleep x K KO); [apply HI1|intros F; apply R1; left; exact F|].
+    intros m1 HI1 L1 R1 LS1. apply wp_bind. apply (ok_sleep x K KO); [apply HI1|intros F; apply R1; left; exact F|].
     intros r m2 S2 F2 P2. destruct r as [[]|e].
     - destruct (S2 I) as [O2 [C2 W2]]. destruct warm.
       + cbn [bind set_mode act1 wp]. apply post_ok. destruct HI1 as [O1 [A1 [B1 [P1 N1]]]]. split; [exact O2|]. rewrite dmode_set_mode.
@@ -583,15 +613,16 @@ Section Inv.
     assert (INV1 : forall m', okm m' -> (cm m' = CStby \/ cm m' = CSleep) -> Inv d1 m').
     { intros m' O' C'. split; [exact O'|]. rewrite D1. split; [destruct C' as [-> | ->]; reflexivity|]. split; [intros Hc; rewrite K1 in Hc; discriminate Hc|].
       split; [exact I|]. intros _. destruct C' as [-> | ->]; discriminate. }
-    apply wp_bind. apply (ok_reset x K KO); [apply HI|]. intros r m1 O1 C1 P1.
+    apply wp_bind. apply (ok_reset x K KO); [apply HI|]. intros r m1 O1 C1 LR1 P1.
     assert (HI1 : Inv d1 m1) by (apply INV1; [exact O1|destruct C1 as [C|[C _]]; [left|right]; exact C]).
     destruct r as [[]|e]; [|apply post_pin; [exact HI1|apply P1; reflexivity]].
     apply wp_bind. rewrite dmode_set_other by (unfold COLD; discriminate).
     apply (ok_ensure x K KO); [exact O1| | |].
     { intros E. destruct C1 as [C|[_ F]]; [congruence|right; exact F]. }
     { intros E. destruct C1 as [C|[C _]]; congruence. }
-    intros r m2 O2 L2 M2 R2 P2.
-    assert (C2 : cm m2 = CStby \/ cm m2 = CSleep). { destruct M2 as [M|[_ M]]; [|left; exact M]. destruct C1 as [C|[C _]]; [left|right]; congruence. }
+    specialize (LR1 I).
+    intros r m2 O2 L2 M2 R2 _ P2.
+    assert (C2 : cm m2 = CStby \/ cm m2 = CSleep). { destruct M2 as [M|[[_ M]|[_ M]]]; [|left; exact M|right; exact M]. destruct C1 as [C|[C _]]; [left|right]; congruence. }
     assert (HI2 : Inv d1 m2) by (apply INV1; assumption).
     destruct r as [[]|e]; [|apply post_pin; [exact HI2|apply P2; reflexivity]].
     apply wp_bind. apply (ok_standby x K KO); [exact O2|intros F; apply R2; [exact I|left; exact F]|].
@@ -601,16 +632,16 @@ Section Inv.
     apply wp_set_mode. set (d3 := set_nth_list d1 0 (enc_mode MStandby)).
     assert (D3 : dmode d3 = MStandby) by (unfold d3; apply dmode_set_mode).
     assert (K3 : cold d3 = true) by (unfold d3; rewrite cold_other by (unfold COLD; discriminate); exact K1).
-    apply cold_start_wp; [exact O3|exact S3|exact D3| |].
-    - intros d4 m4 O4 C4 V4 D4 K4. apply post_ok. apply Inv_standby; [exact O4|exact C4|intros _; exact V4|exact D4].
-    - intros e m4 O4 C4 _. apply post_stby; [|exact C4|exact D3]. apply Inv_standby; [exact O4|exact C4| |exact D3]. intros Hc. rewrite K3 in Hc. discriminate Hc.
+    apply cold_start_wp; [exact O3|exact S3|exact D3|exact (lora_sel_le _ _ L3 (lora_sel_le _ _ L2 LR1))| |].
+    - intros d4 m4 O4 C4 V4 D4 K4 LS4. apply post_ok. apply Inv_standby; [exact O4|exact C4|intros _; exact V4|exact D4|exact LS4].
+    - intros e m4 O4 C4 _ LS4. apply post_stby; [|exact C4|exact D3]. apply Inv_standby; [exact O4|exact C4| |exact D3|exact LS4]. intros Hc. rewrite K3 in Hc. discriminate Hc.
   Qed.
 
   (* ---- set_lora_sync_word *)
   Theorem sync_keeps sw d m : Inv d m -> wp x (set_lora_sync_word K sw) (post d) d m.
   Proof.
     intros HI. unfold set_lora_sync_word. apply wp_get_mode. apply wp_bind. apply ensure_wp; [exact HI| |intros e m1 HI1 P; apply post_pin; assumption].
-    intros m1 HI1 L1 R1. apply wp_bind. apply to_standby_wp; [exact HI1|intros F; apply R1; left; exact F| |intros e m2 HI2 P; apply post_pin; assumption].
+    intros m1 HI1 L1 R1 LS1. apply wp_bind. apply to_standby_wp; [exact HI1|intros F; apply R1; left; exact F|exact LS1| |intros e m2 HI2 P; apply post_pin; assumption].
     intros d2 m2 HI2 D2 C2 L2 F2.
     apply seq_stby with (E := plain_err) (want := it_sync x K KO); [apply (ok_sync x K KO)|exact HI2|exact D2|exact C2|]. intros [] m3 HI3 C3 L3 V3.
     cbn [set_syncw act1 wp]. apply post_ok. destruct HI3 as [O3 [A3 [B3 [P3 N3]]]]. split; [exact O3|].
@@ -629,7 +660,7 @@ Section Inv.
     assert (HI4 : Inv (set_nth_list d1 0 (enc_mode MCad)) m3).
     { destruct HI3 as [O3 [A3 [B3 [P3 N3]]]]. split; [exact O3|]. rewrite dmode_set_mode. split; [rewrite C3; exact I|].
       rewrite cold_other by (unfold COLD; discriminate). split; [exact B3|]. split; [|exact N3].
-      cbn [prepared]. apply (cover_cad x K KO). specialize (B3 K1). unfold it_base in B3.
+      cbn [prepared]. apply (cover_cad x K KO); [|rewrite D1 in P3; exact P3]. specialize (B3 K1). unfold it_base in B3.
       apply valid_all_app in B3. destruct B3 as [Bi B3]. apply valid_all_app in B3. destruct B3 as [Bp Bq].
       repeat (apply valid_all_app; split); try assumption.
       apply (valid_all_le m2); [|exact V2]. intros i Hi. apply L3, Hi. }
@@ -673,7 +704,7 @@ Section Inv.
         apply wp_bind. apply (ok_standby x K KO); [exact O2|intros _; apply ready_stby, C2|]. intros r m3 O3 L3 S3 M3 P3.
         assert (HI3 : Inv d m3). { eapply Inv_move; [exact HI2|exact O3|exact L3|]. destruct M3 as [M|M]; [left; exact M|right; left; exact M]. }
         destruct r as [[]|e]; [|apply post_pin; [exact HI3|apply P3; reflexivity]]. specialize (S3 I).
-        apply wp_set_mode. cbn [wp]. apply post_ok. apply Inv_standby; [exact O3|exact S3| |apply dmode_set_mode].
+        apply wp_set_mode. cbn [wp]. apply post_ok. apply Inv_standby; [exact O3|exact S3| |apply dmode_set_mode|apply (Inv_lora d m3 HI3); rewrite D; discriminate].
         rewrite cold_other by (unfold COLD; discriminate). apply HI3.
       + destruct e; try (apply recover_wp; exact HI2); (apply post_notop; [exact HI2|]); [apply not_op_panic|apply not_op_cancel].
   Qed.
@@ -690,15 +721,15 @@ Section Inv.
     apply wp_set_mode.
     assert (HI4 : Inv (set_nth_list d1 0 (enc_mode MListen)) m3).
     { destruct HI3 as [O3 [A3 [B3 [P3 N3]]]]. split; [exact O3|]. rewrite dmode_set_mode. split; [rewrite C3; exact I|].
-      rewrite cold_other by (unfold COLD; discriminate). split; [exact B3|]. split; [exact I|exact N3]. }
+      rewrite cold_other by (unfold COLD; discriminate). split; [exact B3|]. split; [rewrite D1 in P3; exact P3|exact N3]. }
     apply (ok_rx x K KO); [apply HI4|apply ready_stby, C3| |].
-    { apply (cover_listen x K KO); [exact LI|]. destruct HI3 as [_ [_ [B3 _]]]. specialize (B3 K1). unfold it_base in B3.
+    { apply (cover_listen x K KO); [exact LI| |apply (Inv_lora d1 m3 HI3); rewrite D1; discriminate]. destruct HI3 as [_ [_ [B3 _]]]. specialize (B3 K1). unfold it_base in B3.
       apply valid_all_app in B3. destruct B3 as [Bi _]. repeat (apply valid_all_app; split); try assumption.
       apply (valid_all_le m2); [|exact V2]. intros i Hi. apply L3, Hi. }
     intros r m4 O4 L4 S4 M4 N4 P4.
     assert (HI5 : Inv (set_nth_list d1 0 (enc_mode MListen)) m4).
     { destruct HI4 as [O [A [C [P N]]]]. split; [exact O4|]. rewrite dmode_set_mode in *. split; [destruct M4 as [-> | ->]; [exact A|right; reflexivity]|].
-      split; [intros Hc; eapply valid_all_le; [exact L4|apply C, Hc]|]. split; [exact I|]. intros F E. apply (N F). apply (N4 F E). }
+      split; [intros Hc; eapply valid_all_le; [exact L4|apply C, Hc]|]. split; [exact (lora_sel_le _ _ L4 P)|]. intros F E. apply (N F). apply (N4 F E). }
     destruct r as [[]|e]; [apply post_ok; exact HI5|]. destruct (P4 e eq_refl) as [P|[P|[_ [_ [_ Du]]]]]; try (apply post_pin; [exact HI5|tauto]). discriminate Du.
   Qed.
 
